@@ -301,9 +301,16 @@ class Harness:
                     H.cur_hook_entry[2].append(hid)
                     if beh:
                         raise H.make_exc(beh, sc)
-                cb.failsafe = failsafe
-                cb.priority = prio
-                hooks.attach(point, cb)
+                if hid % 2:
+                    # metadata declared on the callback itself
+                    cb.failsafe = failsafe
+                    cb.priority = prio
+                    hooks.attach(point, cb)
+                else:
+                    # explicit arguments of attach() win over (misleading) attributes of the callback
+                    cb.failsafe = not failsafe
+                    cb.priority = 50 if prio != 50 else 20
+                    hooks.attach(point, cb, failsafe=failsafe, priority=prio)
 
         class Req(_cprequest.Request):
             pass
@@ -620,7 +627,7 @@ class FlowCheck(core.Check):
                         beh = rng.choice([None, None, None, 'Exception', 'HTTPError', 'HTTPRedirect', 'InternalRedirect'])
                         if rng.random() < .03:
                             beh = rng.choice(['KeyboardInterrupt', 'SystemExit'])
-                        lst.append([len(hk) * 10 + i + 1, rng.choice([10, 50, 50, 70]), rng.random() < .4, beh])
+                        lst.append([len(hk) * 10 + i + 1, rng.choice([0, 10, 50, 50, 70, 100]), rng.random() < .4, beh])
                     hk[p] = lst
         sc['hooks'] = hk
         return sc
